@@ -130,7 +130,7 @@ func c20(w *core.World, r *core.Report) {
 		memoNil := func(p *core.Path) bool {
 			return p.Holds(token.EQL, func(x ssa.Value) bool { return core.IsFieldLoad(core.Unwrap(x), "RdbReplay", "ignoredKey") }, core.IsNilConst)
 		}
-		okEnum := core.EnumPathsN(f.Blocks[0], 0, 400000, 2, func(p *core.Path) {
+		okEnum := core.EnumPathsN(f.Blocks[0], 0, 400000, core.Unroll, func(p *core.Path) {
 			ret, isRet := p.End.(*ssa.Return)
 			if !isRet {
 				return
